@@ -145,6 +145,19 @@ func churn() int {
 				&e5.Val{FC: e5.F8, F: []float64{float64(v) + 0.5}}, &e5.Val{FC: e5.JIS8, Raw: []byte{v}}, &e5.Val{FC: e5.List, Kids: []*e5.Val{{FC: e5.U2, U: []uint64{uint64(v)}}}})
 		}
 		good := e5.Encode(nil, &e5.Val{FC: e5.List, Kids: kids})
+		// empty items in every legal header spelling (1, 2 and 3 length bytes), alone and as children:
+		// a decoder that shares one object between "equal" empty results would stamp it with each
+		for _, fc := range []byte{e5.List, e5.ASCII, e5.Binary, e5.U1, e5.Boolean} {
+			for _, enc := range [][]byte{{fc<<2 | 1, 0}, {fc<<2 | 2, 0, 0}, {fc<<2 | 3, 0, 0, 0}} {
+				if it, err := secs2.Decode(enc); err == nil {
+					_ = it.ToBytes()
+				}
+				if it, err := secs2.DecodeOwned(append([]byte{0x01, 0x02}, append(enc, enc...)...)); err == nil {
+					_ = it.ToBytes()
+				}
+				n += 2
+			}
+		}
 		for _, cut := range []int{len(good) - 1, len(good) / 2, 3} {
 			_, _ = secs2.Decode(good[:cut])
 			_, _ = secs2.DecodeOwned(append([]byte(nil), good[:cut]...))
